@@ -35,19 +35,21 @@ VARIABLES ver,        \* ver[p]: version of p's buffers (0 = never simulated)
           nres,       \* next fresh result id
           cver,       \* cver[d]: number of clauses registered on derivative d (its payoff changes with every clause)
           pnext,      \* next fresh parameter version
+          kver,       \* kver[d]: version of derivative d's contract terms (re-struck after it was first used)
+          uver,       \* uver[p]: version of primary p's parameters (cost rate changed after it was first used)
           lver,       \* lver[d]: how often derivative d has been re-listed with another pricer (its listed price changes)
           hist
-vars == <<ver, npaths, next, pver, prev, memo, nres, cver, pnext, lver, hist>>
+vars == <<ver, npaths, next, pver, prev, memo, nres, cver, pnext, lver, kver, uver, hist>>
 
 ReadOnlyOps == {"Payoff", "Features", "ListedSpot", "ComputeHedge", "ComputePortfolio", "ComputePL", "Criterion"}
 \* what a result may depend on: the operation, the hedger's PARAMETERS (not the hedger object), the derivative with its
 \* clauses, and the versions of the buffers it reads
-Key(op, h, d) == <<op, IF h = "-" THEN 0 ELSE pver[h], d, ver[UL[d]], cver[d], lver[d]>>
+Key(op, h, d) == <<op, IF h = "-" THEN 0 ELSE pver[h], d, ver[UL[d]], cver[d], lver[d], kver[d], uver[UL[d]]>>
 
 Init == /\ ver = [p \in Prims |-> 0] /\ npaths = [p \in Prims |-> 0] /\ next = 1
         /\ pver = [h \in Hedgers |-> 1]           \* all hedgers start from the same parameters (a clone is "fresh")
         /\ prev = [h \in Hedgers |-> [n |-> 0, src |-> "none"]]
-        /\ memo = <<>> /\ nres = 1 /\ cver = [d \in Derivs |-> 0] /\ pnext = 2 /\ lver = [d \in Derivs |-> 0] /\ hist = <<>>
+        /\ memo = <<>> /\ nres = 1 /\ cver = [d \in Derivs |-> 0] /\ pnext = 2 /\ lver = [d \in Derivs |-> 0] /\ kver = [d \in Derivs |-> 0] /\ uver = [p \in Prims |-> 0] /\ hist = <<>>
 
 Room == Len(hist) < MaxDepth
 Lookup(k) == IF k \in DOMAIN memo THEN memo[k] ELSE nres
@@ -55,21 +57,21 @@ Lookup(k) == IF k \in DOMAIN memo THEN memo[k] ELSE nres
 Remember(k, id) == /\ (k \in DOMAIN memo => id = memo[k])
                    /\ memo' = IF k \in DOMAIN memo THEN memo ELSE memo @@ (k :> id)
                    /\ nres' = IF id >= nres THEN id + 1 ELSE nres
-Log(e) == hist' = Append(hist, e @@ [ver |-> ver', npaths |-> npaths', cv |-> cver'[e.d], lv |-> lver'[e.d], pv |-> IF e.h = "-" THEN 0 ELSE pver'[e.h]])
+Log(e) == hist' = Append(hist, e @@ [ver |-> ver', npaths |-> npaths', cv |-> cver'[e.d], lv |-> lver'[e.d], kv |-> kver'[e.d], uv |-> uver'[UL[e.d]], pv |-> IF e.h = "-" THEN 0 ELSE pver'[e.h]])
 
 \* v: the version of the freshly simulated buffers - never seen before
 Simulate(d, n, v) ==
   /\ Room /\ v >= next
   /\ ver' = [ver EXCEPT ![UL[d]] = v] /\ next' = v + 1
   /\ npaths' = [npaths EXCEPT ![UL[d]] = n]
-  /\ UNCHANGED <<pver, prev, memo, nres, cver, pnext, lver>>
+  /\ UNCHANGED <<pver, prev, memo, nres, cver, pnext, lver, kver, uver>>
   /\ Log([op |-> "Simulate", h |-> "-", d |-> d, n |-> n, res |-> 0])
 
 \* a read-only computation that does not involve a hedger
 Read(op, d, id) ==
   /\ Room /\ ver[UL[d]] # 0 /\ op \in {"Payoff", "Features", "ListedSpot"}
   /\ Remember(Key(op, "-", d), id)
-  /\ UNCHANGED <<ver, npaths, next, pver, prev, cver, pnext, lver>>
+  /\ UNCHANGED <<ver, npaths, next, pver, prev, cver, pnext, lver, kver, uver>>
   /\ Log([op |-> op, h |-> "-", d |-> d, n |-> 0, res |-> id])
 
 \* compute_hedge / compute_portfolio / compute_pl: ResetPrev then Run, folded into one atomic public call
@@ -79,7 +81,7 @@ Compute(op, h, d, id) ==
          k == Key(op, h, d)
      IN  /\ Remember(k, id)
          /\ prev' = [prev EXCEPT ![h] = IF StateDep[h] THEN [n |-> prev0.n, src |-> "own-output"] ELSE [n |-> prev0.n, src |-> "whole-output"]]
-  /\ UNCHANGED <<ver, npaths, next, pver, cver, pnext, lver>>
+  /\ UNCHANGED <<ver, npaths, next, pver, cver, pnext, lver, kver, uver>>
   /\ Log([op |-> op, h |-> h, d |-> d, n |-> 0, res |-> id])
 
 \* compute_loss / price: a fresh simulation followed by a read-only computation on it
@@ -88,22 +90,35 @@ SimCompute(op, h, d, n, v) ==
   /\ ver' = [ver EXCEPT ![UL[d]] = v] /\ next' = v + 1
   /\ npaths' = [npaths EXCEPT ![UL[d]] = n]
   /\ prev' = [prev EXCEPT ![h] = [n |-> n, src |-> IF StateDep[h] THEN "own-output" ELSE "whole-output"]]
-  /\ UNCHANGED <<pver, memo, nres, cver, pnext, lver>>
+  /\ UNCHANGED <<pver, memo, nres, cver, pnext, lver, kver, uver>>
   /\ Log([op |-> op, h |-> h, d |-> d, n |-> n, res |-> 0])
 
 \* add_clause: changes what the derivative pays, touches no market data and no hedger
 AddClause(d) ==
   /\ Room /\ cver[d] < 2
   /\ cver' = [cver EXCEPT ![d] = cver[d] + 1]
-  /\ UNCHANGED <<ver, npaths, next, pver, prev, memo, nres, pnext, lver>>
+  /\ UNCHANGED <<ver, npaths, next, pver, prev, memo, nres, pnext, lver, kver, uver>>
   /\ Log([op |-> "AddClause", h |-> "-", d |-> d, n |-> 0, res |-> 0])
 
 \* delist() + list(another pricer): the listed price of THIS derivative changes; no market data, no hedger is touched
 Relist(d) ==
   /\ Room /\ lver[d] < 2
   /\ lver' = [lver EXCEPT ![d] = lver[d] + 1]
-  /\ UNCHANGED <<ver, npaths, next, pver, prev, memo, nres, cver, pnext>>
+  /\ UNCHANGED <<ver, npaths, next, pver, prev, memo, nres, cver, pnext, kver, uver>>
   /\ Log([op |-> "Relist", h |-> "-", d |-> d, n |-> 0, res |-> 0])
+
+\* the contract is re-struck (derivative.strike = ...) / the underlier's cost rate is changed after first use: public
+\* attributes; every later result is the one of the CURRENT terms (nothing remembered from before may be used)
+Restrike(d) ==
+  /\ Room /\ kver[d] < 2
+  /\ kver' = [kver EXCEPT ![d] = kver[d] + 1]
+  /\ UNCHANGED <<ver, npaths, next, pver, prev, memo, nres, cver, pnext, lver, uver>>
+  /\ Log([op |-> "Restrike", h |-> "-", d |-> d, n |-> 0, res |-> 0])
+SetCost(d) ==
+  /\ Room /\ uver[UL[d]] < 2
+  /\ uver' = [uver EXCEPT ![UL[d]] = uver[UL[d]] + 1]
+  /\ UNCHANGED <<ver, npaths, next, pver, prev, memo, nres, cver, pnext, lver, kver>>
+  /\ Log([op |-> "SetCost", h |-> "-", d |-> d, n |-> 0, res |-> 0])
 
 \* fit for one epoch: a fresh simulation and one optimiser step - the parameters of THIS hedger (only) get a new version
 Fit(h, d, n, v, pv) ==
@@ -112,12 +127,13 @@ Fit(h, d, n, v, pv) ==
   /\ npaths' = [npaths EXCEPT ![UL[d]] = n]
   /\ pver' = [pver EXCEPT ![h] = pv] /\ pnext' = pv + 1
   /\ prev' = [prev EXCEPT ![h] = [n |-> n, src |-> IF StateDep[h] THEN "own-output" ELSE "whole-output"]]
-  /\ UNCHANGED <<memo, nres, cver, lver>>
+  /\ UNCHANGED <<memo, nres, cver, lver, kver, uver>>
   /\ Log([op |-> "Fit", h |-> h, d |-> d, n |-> n, res |-> 0])
 
 Next == \/ \E d \in Derivs, n \in Paths : Simulate(d, n, next)
         \/ \E d \in Derivs : AddClause(d)
         \/ \E d \in Derivs : Relist(d)
+        \/ \E d \in Derivs : Restrike(d) \/ SetCost(d)
         \/ \E d \in Derivs, h \in Hedgers, n \in Paths : Fit(h, d, n, next, pnext)
         \/ \E d \in Derivs, op \in {"Payoff", "Features", "ListedSpot"} : Read(op, d, Lookup(Key(op, "-", d)))
         \/ \E d \in Derivs, h \in Hedgers, op \in {"ComputeHedge", "ComputePortfolio", "ComputePL"} : Compute(op, h, d, Lookup(Key(op, h, d)))
@@ -136,7 +152,7 @@ HistoryIndependent ==
   \A i, j \in 1..Len(hist) :
     (/\ hist[i].op = hist[j].op /\ hist[i].op \in ReadOnlyOps
      /\ hist[i].d = hist[j].d /\ hist[i].ver[UL[hist[i].d]] = hist[j].ver[UL[hist[j].d]]
-     /\ hist[i].cv = hist[j].cv /\ hist[i].lv = hist[j].lv /\ hist[i].pv = hist[j].pv)
+     /\ hist[i].cv = hist[j].cv /\ hist[i].lv = hist[j].lv /\ hist[i].kv = hist[j].kv /\ hist[i].uv = hist[j].uv /\ hist[i].pv = hist[j].pv)
     => hist[i].res = hist[j].res
 \* the state a state-dependent hedger carries always has the shape of its last evaluation (never read across calls)
 CarriedStateIsOwn == \A h \in Hedgers : prev[h].src \in {"none", "own-output", "whole-output"}
